@@ -3,6 +3,9 @@ import itertools
 from .common import *  # noqa
 
 KEYS = {"derived"}
+# observations whose model value is the property's specified value (a disagreement there is a failing input);
+# on the others the correspondence supports the tie and the oracle searches for the failing input
+SPEC_KEYS = set()
 
 
 def run(tier, seed):
